@@ -883,7 +883,7 @@ func marshalPositions(desc string, k *kindInfo, v reflect.Value, want string) er
 	sv.Field(0).Set(v)
 	mv := reflect.MakeMap(k.MapT)
 	mv.SetMapIndex(v, reflect.ValueOf(0))
-	for _, p := range []pos{
+	positions := []pos{
 		{"plain", v.Interface(), nil, want},
 		{"string-tag", sv.Interface(), nil, `{"F":"` + want + `"}`},
 		{"StringifyNumbers", v.Interface(), []json.Options{json.StringifyNumbers(true)}, `"` + want + `"`},
@@ -892,10 +892,18 @@ func marshalPositions(desc string, k *kindInfo, v reflect.Value, want string) er
 		{"after-small-float", []any{1e-300, v.Interface()}, nil, `[1e-300,` + want + `]`},
 		{"member-named-e-", map[string]any{"zone-e-b": v.Interface()}, nil, `{"zone-e-b":` + want + `}`},
 		{"any-elem", []any{v.Interface()}, nil, `[` + want + `]`},
+
 		{"any-member", map[string]any{"k": v.Interface()}, nil, `{"k":` + want + `}`},
 		{"any-field", struct{ A any }{v.Interface()}, nil, `{"A":` + want + `}`},
 		{"any-elem-deterministic", []any{v.Interface()}, []json.Options{json.Deterministic(true)}, `[` + want + `]`},
-	} {
+	}
+	if k.Float {
+		// the format option only changes how NaN and infinities are written
+		positions = append(positions,
+			pos{"format-nonfinite-field", nonfiniteField(v), []json.Options{json.ExperimentalSupportFormatTag(true)}, `{"F":` + want + `}`},
+			pos{"format-nonfinite-ptr-field", nonfiniteField(ptrTo(v)), []json.Options{json.ExperimentalSupportFormatTag(true)}, `{"F":` + want + `}`})
+	}
+	for _, p := range positions {
 		b, err := json.Marshal(p.val, p.opts...)
 		if err != nil {
 			return fmt.Errorf("%s: Marshal (%s) failed: %v", desc, p.name, err)
@@ -905,6 +913,21 @@ func marshalPositions(desc string, k *kindInfo, v reflect.Value, want string) er
 		}
 	}
 	return nil
+}
+
+// nonfiniteField wraps v (a float or a pointer to one) into
+// struct{ F T `json:",format:nonfinite"` }: finite values keep their usual form.
+func nonfiniteField(v reflect.Value) any {
+	st := reflect.StructOf([]reflect.StructField{{Name: "F", Type: v.Type(), Tag: `json:",format:nonfinite"`}})
+	sv := reflect.New(st).Elem()
+	sv.Field(0).Set(v)
+	return sv.Interface()
+}
+
+func ptrTo(v reflect.Value) reflect.Value {
+	p := reflect.New(v.Type())
+	p.Elem().Set(v)
+	return p
 }
 
 func tokenText(desc string, tok jsontext.Token, want string) error {
